@@ -805,6 +805,12 @@ func (c *Client) Start() (addr net.Addr, err error) {
 	// logStderr calls c.pipesWaitGroup.Done()
 	go c.logStderr(runner.Name(), runner.Stderr())
 
+	// Account for the stdout reader started further down before anything
+	// can wait on pipesWaitGroup: an Add racing with Wait once stderr has
+	// already hit EOF would let the process be reaped, and its pipes closed,
+	// before stdout has been read.
+	c.pipesWaitGroup.Add(1)
+
 	c.clientWaitGroup.Add(1)
 	go func() {
 		// ensure the context is cancelled when we're done
@@ -839,9 +845,9 @@ func (c *Client) Start() (addr net.Addr, err error) {
 	// out of stdout
 	linesCh := make(chan string)
 	c.clientWaitGroup.Add(1)
-	c.pipesWaitGroup.Add(1)
 	go func() {
 		defer c.clientWaitGroup.Done()
+		// Added above, before the goroutine waiting on it was started.
 		defer c.pipesWaitGroup.Done()
 
 		stdout := runner.Stdout()
